@@ -246,11 +246,20 @@ Section WireProofs.
     (do r <- client_request U d args kw; srv_in_object xfer U p d r) = Ok (wire_io U d args kw).
   Proof.
     intros U p [nm st mi mo nh] args kw Hs Hn Hw Hx.
-    unfold client_request, srv_in_object, wire_io, null_supported, wire_supported in *. cbn in *.
+    unfold client_request, srv_in_object, wire_io, null_supported, wire_supported in *.
+    cbn -[hier_bare_lookup] in *.
+    assert (Hfound : forall mi', mi' = mi ->
+              (match p with PHier => hier_found hier_bare_lookup U (mkdesc nm st mi' mo nh) | _ => true end) = true).
+    { intros mi' ->. destruct p; [reflexivity|reflexivity|].
+      assert (Hm : forall m, (m = LkSubName \/ text_eqb (msg_type_name U (mkdesc nm st mi mo nh) mi) nm = true) ->
+                   hier_found m U (mkdesc nm st mi mo nh) = true).
+      { intros m [->|H]; [reflexivity|]. destruct m; [exact H|reflexivity]. }
+      apply Hm. exact Hw. }
+    unfold srv_in_object_gen.
     destruct mi as [fs|[q|c|e]]; try contradiction.
-    - destruct p; cbn in Hw |- *; rewrite ?Hw; rewrite (Hx _ eq_refl); reflexivity.
+    - cbn [Prelude.bind md_in]. rewrite (Hfound _ eq_refl). rewrite (Hx _ eq_refl). reflexivity.
     - destruct (flat_fields U c) as [ffs|] eqn:Eff; [|contradiction].
-      destruct p; cbn in Hw |- *; rewrite ?Hw; rewrite (Hx _ eq_refl); reflexivity.
+      cbn [Prelude.bind md_in]. rewrite (Hfound _ eq_refl). rewrite (Hx _ eq_refl). reflexivity.
   Qed.
 
   Lemma wire_io_args : forall U d args kw, shape d -> null_supported U d ->
@@ -703,6 +712,23 @@ Section Corollaries.
     - right. exact Hm.
     - left. reflexivity.
   Qed.
+  Theorem null_eq_wire_hier_when_sub_name : forall U dcs ms key d f args kw,
+    hier_bare_lookup = LkSubName ->
+    decorate_all U dcs = Ok ms -> find_method ms key = Some d ->
+    null_supported U d ->
+    call_ok (param_names U d) args kw ->
+    codec_carries xfer U PHier d None f args kw ->
+    fun_fits U d None f args kw ->
+    outcome_rel (fst (null_call U ms key None f args kw))
+                (fst (wire_call xfer tns U PHier ms key [] f args kw))
+    /\ app_trace (snd (null_call U ms key None f args kw)) = ref_trace U d None f args kw
+    /\ app_trace (snd (wire_call xfer tns U PHier ms key [] f args kw)) = ref_trace U d None f args kw.
+  Proof.
+    intros U dcs ms key d f args kw Hm Hd Hf Hn Hc Hx Hfit.
+    apply (null_eq_wire xfer tns U PHier dcs ms key d [] f args kw); auto.
+    - left. exact Hm.
+    - left. reflexivity.
+  Qed.
 End Corollaries.
 
 (** more positional arguments than parameters: NullServer raises IndexError before anything runs *)
@@ -756,26 +782,21 @@ Theorem ignored_empty_tuple_refuted : forall U nm fs g1 g2 gs nh pl,
   /\ (do o <- srv_ignored_gen pinned U d (out_object_of d (PIgnored pl)); resp_value U PHier d o) = Crash IndexError.
 Proof. intros. split; reflexivity. Qed.
 
-(** HierDictDocument looks a bare request body up under the type name: the arguments never arrive *)
+(** pinned HierDictDocument.deserialize (the request body looked up under the TYPE name of the
+    in-message): the argument of a bare method never arrives — the function is entered with []
+    where NullServer enters it with the arguments of the call *)
 Theorem hier_bare_request_refuted :
-  exists U dcs ms key d args kw,
+  exists U dcs ms key d args kw r,
     decorate_all U dcs = Ok ms /\ find_method ms key = Some d /\ null_supported U d /\
-    call_ok (param_names U d) args kw /\
-    forall f, ~ In (EvUser None (delivered U d args kw)) (snd (wire_call xfer_id [117] U PHier ms key [] f args kw))
-              /\ In (EvUser None (delivered U d args kw)) (snd (null_call U ms key None f args kw)).
+    call_ok (param_names U d) args kw /\ client_request U d args kw = Ok r /\
+    (do io <- srv_in_object_gen xfer_id LkTypeName U PHier d r; do io' <- pr_in_stage U d io; args_of io')
+      = Ok [PVal (VList [])] /\
+    delivered U d args kw <> [PVal (VList [])] /\
+    (do io <- null_in_object null_ti_source U d args kw; do io' <- pr_in_stage U d io; args_of io')
+      = Ok (delivered U d args kw).
 Proof.
   exists U_inh, dcs_inh, [d_bd], [98; 100], d_bd, [], [([99], VLeaf (LBool true))].
-  split; [reflexivity|]. split; [reflexivity|]. split; [cbn; discriminate|]. split; [apply call_ok_kw_only|].
-  intros f. split.
-  - intro Hin. unfold wire_call in Hin. cbn in Hin.
-    destruct (f None [PVal (VList [])]) as [x|flt|]; cbn in Hin.
-    + destruct x; cbn in Hin;
-        repeat (destruct Hin as [Hin|Hin]; [try discriminate Hin; inversion Hin|]); try contradiction.
-    + repeat (destruct Hin as [Hin|Hin]; [try discriminate Hin; inversion Hin|]); contradiction.
-    + repeat (destruct Hin as [Hin|Hin]; [try discriminate Hin; inversion Hin|]); contradiction.
-  - unfold null_call, null_call_gen. cbn.
-    destruct (f None [PVal (VObj 1%nat [VNone; VNone; VLeaf (LBool true)])]) as [x|flt|]; cbn.
-    + destruct x; cbn; auto.
-    + auto.
-    + auto.
+  eexists. split; [reflexivity|]. split; [reflexivity|]. split; [cbn; discriminate|].
+  split; [apply call_ok_kw_only|]. split; [reflexivity|]. split; [reflexivity|].
+  split; [cbn; discriminate|reflexivity].
 Qed.
